@@ -508,6 +508,17 @@ class ConstantScoreWrapperMatcher(WrappingMatcher):
     def block_quality(self):
         return self._score
 
+    def skip_to_quality(self, minquality):
+        # Every posting has the same score, so either nothing can be skipped or
+        # none of the remaining postings can beat the threshold
+        if self._score > minquality:
+            return 0
+        skipped = 0
+        while self.child.is_active():
+            self.child.next()
+            skipped += 1
+        return skipped
+
     def score(self):
         return self._score
 
